@@ -40,6 +40,25 @@ func genLifecycle(r *rand.Rand, quick bool) *plan.Plan {
 		}
 		inc.Ops = append(inc.Ops, plan.Op{Kind: "ingest", Index: "lay", Events: evs}, plan.Op{Kind: []string{"flush", "rotate"}[r.IntN(2)]})
 	}
+	manySegments := r.IntN(2) == 0
+	// one history in four is the "client stalls, query times out" family: many segments, a short time-out and
+	// a websocket client that reads at most one message
+	stallFamily := r.IntN(4) == 0
+	if stallFamily {
+		manySegments = true
+		p.Knobs.QueryTimeoutSec = []int{1, 2}[r.IntN(2)]
+	}
+	if manySegments {
+		// a dozen small rotated segments: an asynchronous query then reports more progress updates than the
+		// buffer of its state channel holds
+		for b := 0; b < 12+r.IntN(5); b++ {
+			var evs []json.RawMessage
+			for i := 0; i < 2+r.IntN(3); i++ {
+				evs = append(evs, g.Next(simEpochMs+int64(r.IntN(3_600_000))).Raw)
+			}
+			inc.Ops = append(inc.Ops, plan.Op{Kind: "ingest", Index: "lay", Events: evs}, plan.Op{Kind: "rotate"})
+		}
+	}
 	inc.Ops = append(inc.Ops, plan.Op{Kind: "qstats"}) // baseline
 	qid := 1_000_000
 	var qids []int
@@ -74,6 +93,23 @@ func genLifecycle(r *rand.Rand, quick bool) *plan.Plan {
 			ops = append(ops, plan.Op{Kind: "advance", DurMs: int64([]int{0, 3, 11, 30}[r.IntN(4)])})
 			ops = append(ops, plan.Op{Kind: "stall", DurMs: int64([]int{500, 2500, 7000}[r.IntN(3)]), Args: map[string]any{"prefix": []string{"pkg/ast/pipesearch/searchHandler.go", "pkg/segment/query", "pkg/segment/search", "pkg/segment/query/querystatus.go"}[r.IntN(4)]}})
 		}
+		clients = append(clients, ops)
+	}
+	// asynchronous searches over the websocket route: clients that read everything, and clients that stop
+	// reading after a few messages and keep the connection open beyond the query time-out (the server's
+	// listener then blocks on the socket and the query's state channel fills up)
+	nws := r.IntN(3)
+	if stallFamily && nws == 0 {
+		nws = 1
+	}
+	for w := 0; w < nws; w++ {
+		read := []int{-1, -1, 0, 1, 2, 3}[r.IntN(6)]
+		if stallFamily && w == 0 {
+			read = r.IntN(2)
+		}
+		ops := []plan.Op{{Kind: "advance", DurMs: int64(r.IntN(30))},
+			{Kind: "ws_query", Index: "lay", Text: []string{"*", "level=error", "* | stats count by level"}[r.IntN(3)], Start: qStart, End: qEnd, Size: 500,
+				Args: map[string]any{"read": read, "hold_ms": 1000 * (2 + r.IntN(9))}}}
 		clients = append(clients, ops)
 	}
 	// monitor
@@ -136,6 +172,7 @@ func lifecycleOracle(prop string, res *RunResult) []Violation {
 		id       string
 	}
 	var runs []qrun
+	var wsRuns []struct{ inv, ret int64 }
 	ops := res.Plan.Incs[0].Ops
 	parIdx := -1
 	for oi := range ops {
@@ -192,6 +229,14 @@ func lifecycleOracle(prop string, res *RunResult) []Violation {
 					if ret != nil {
 						stalls = append(stalls, struct{ at, dur int64 }{ret.SimMs, o.DurMs})
 					}
+				case "ws_query":
+					if inv != nil {
+						w := struct{ inv, ret int64 }{inv.SimMs, 1 << 62}
+						if ret != nil {
+							w.ret = ret.SimMs
+						}
+						wsRuns = append(wsRuns, w)
+					}
 				case "query":
 					if inv == nil {
 						continue
@@ -230,6 +275,33 @@ func lifecycleOracle(prop string, res *RunResult) []Violation {
 		if q.ret-start > limit {
 			vs = append(vs, Violation{Sig: prop + ":query-answered-too-late", Msg: fmt.Sprintf("%s %q: invoked at %d, answered at %d (faults ended %d, limit %d ms)", q.id, q.text, q.inv, q.ret, faultsEnd, limit)})
 		}
+		// no blocking by other queries: a query that found a free admission slot, outside every stall window,
+		// is not held up by whatever another query (e.g. one whose websocket client stopped reading) is going
+		// through. Compute time costs no simulated time; only the 10 ms admission poll does. Not judged when
+		// site delays are on (they let simulated time pass while a task is held back).
+		if res.Plan.Knobs.DelayPermille == 0 && len(res.Plan.Knobs.DelaySites) == 0 && q.err == "" {
+			const window = 3000
+			inflight := 0
+			for _, o := range runs {
+				if o.id != q.id && o.inv <= q.inv && (o.ret < 0 || o.ret > q.inv) {
+					inflight++
+				}
+			}
+			for _, w := range wsRuns {
+				if w.inv <= q.inv && w.ret > q.inv {
+					inflight++
+				}
+			}
+			stalled := false
+			for _, st := range stalls {
+				if st.at <= q.inv+window && st.at+st.dur >= q.inv {
+					stalled = true
+				}
+			}
+			if mr := int64(res.Plan.Knobs.MaxRunning); !stalled && (mr == 0 || int64(inflight) < mr) && q.ret-q.inv > window {
+				vs = append(vs, Violation{Sig: prop + ":query-blocked-although-a-slot-was-free", Msg: fmt.Sprintf("%s %q: invoked at %d with %d queries in flight (MAX_RUNNING_QUERIES=%d), no stall fault active, answered only at %d", q.id, q.text, q.inv, inflight, mr, q.ret)})
+			}
+		}
 		if ca, ok := cancelAt[q.qid]; ok && ca >= q.inv && ca <= q.ret {
 			if q.ret-maxI64(ca, faultsEnd) > 15_000 {
 				vs = append(vs, Violation{Sig: prop + ":cancel-not-prompt", Msg: fmt.Sprintf("%s %q: cancelled at %d, returned at %d", q.id, q.text, ca, q.ret)})
@@ -238,7 +310,7 @@ func lifecycleOracle(prop string, res *RunResult) []Violation {
 	}
 	if final != nil {
 		if final.Active != 0 {
-			vs = append(vs, Violation{Sig: prop + ":running-table-not-empty-after-quiescence", Msg: fmt.Sprintf("%d entries left in the running-queries table", final.Active)})
+			vs = append(vs, Violation{Sig: prop + ":running-table-not-empty-after-quiescence" + stalledWS(res.Plan), Msg: fmt.Sprintf("%d entries left in the running-queries table", final.Active)})
 		}
 		if final.Waiting != 0 {
 			vs = append(vs, Violation{Sig: prop + ":waiting-queue-not-empty-after-quiescence", Msg: fmt.Sprintf("%d entries left in the waiting queue", final.Waiting)})
@@ -248,6 +320,9 @@ func lifecycleOracle(prop string, res *RunResult) []Violation {
 			for name, n := range final.Tasks {
 				if strings.HasPrefix(name, "client") || name == "main" {
 					continue
+				}
+				if strings.HasPrefix(name, "adopted#") {
+					continue // idle goroutines of the HTTP server's worker pool: not goroutines of a query
 				}
 				if n > baseline.Tasks[name] {
 					leaked = append(leaked, fmt.Sprintf("%s x%d", name, n-baseline.Tasks[name]))
@@ -259,7 +334,7 @@ func lifecycleOracle(prop string, res *RunResult) []Violation {
 				for i, l := range leaked {
 					sites[i] = strings.Fields(l)[0]
 				}
-				vs = append(vs, Violation{Sig: prop + ":goroutines-left-after-quiescence:" + strings.Join(sites, ","), Msg: strings.Join(leaked, "; ")})
+				vs = append(vs, Violation{Sig: prop + ":goroutines-left-after-quiescence" + stalledWS(res.Plan) + ":" + strings.Join(sites, ","), Msg: strings.Join(leaked, "; ")})
 			}
 		}
 	} else {
@@ -345,4 +420,21 @@ func init() {
 		},
 		Components: stdComponents,
 	})
+}
+
+// stalledWS marks histories in which a websocket client stopped reading (so that the class "left behind after a
+// client stalled and went away" is told apart from leaks of ordinary queries).
+func stalledWS(p *plan.Plan) string {
+	for _, inc := range p.Incs {
+		for _, op := range inc.Ops {
+			for _, cl := range op.Par {
+				for _, o := range cl {
+					if o.Kind == "ws_query" && paramInt(o.Args["read"], -1) >= 0 {
+						return ":with-stalled-websocket-client"
+					}
+				}
+			}
+		}
+	}
+	return ""
 }
